@@ -1,4 +1,161 @@
-import PieModel.Build.Pie
+/-
+Property C04, the queue as a pure data structure: "a scheduled task is never executed before
+another scheduled task that it depends on".
+
+Edges of the dependency graph go from a task to what it depends on and every edge goes upward
+in rank (`Dag.Inv.upward`), so the (transitive) dependencies of a node have *higher* rank.
+`queuePop` removes the queued node of greatest rank; `queuePopLeastFrom st q src` removes the
+queued node of greatest rank in the cone `{src} ∪ {m | src ↝ m}`.  Therefore the node handed
+out for execution never reaches a node that is still queued.
+
+Property statements only; the proofs are in `PieModel/Build/QueueLemmas.lean`.
+-/
+import PieModel.Build.QueueLemmas
+import PieModel.Props.C10
+
 namespace PieModel
-theorem C04_placeholder : True := trivial
+open Dag
+
+/-! ### `Queue::add` -/
+
+theorem C04_queueAdd_mem {q : List Nat} {n m : Nat} : m ∈ queueAdd q n ↔ m ∈ q ∨ m = n :=
+  mem_queueAdd
+
+theorem C04_queueAdd_nodup {q : List Nat} {n : Nat} : q.Nodup → (queueAdd q n).Nodup :=
+  queueAdd_nodup
+
+/-! ### `Queue::pop` -/
+
+/-- `queuePop` removes one occurrence of a queued node of greatest rank. -/
+theorem C04_queuePop_spec (st : Store) (q q' : List Nat) (n : Nat)
+    (h : queuePop st q = some (n, q')) :
+    n ∈ q ∧ q'.Perm (q.erase n) ∧ (∀ m ∈ q, st.g.topoOf m ≤ st.g.topoOf n) ∧
+      (q.Nodup → n ∉ q' ∧ q'.Nodup) :=
+  ⟨queuePop_mem h, queuePop_perm_erase h, queuePop_max h, queuePop_nodup h⟩
+
+/-- The remainder is sorted by rank, and sorting + popping is exactly "last of the sorted queue". -/
+theorem C04_queuePop_sorted (st : Store) (q q' : List Nat) (n : Nat)
+    (h : queuePop st q = some (n, q')) :
+    queueSort st q = q' ++ [n] ∧ q'.Pairwise (fun a b => st.g.topoOf a ≤ st.g.topoOf b) :=
+  ⟨queuePop_eq_some h, queuePop_rest_sorted h⟩
+
+theorem C04_queuePop_none_iff (st : Store) (q : List Nat) : queuePop st q = none ↔ q = [] :=
+  queuePop_eq_none
+
+/-- **A popped node has no queued transitive dependency.** -/
+theorem C04_pop_no_queued_dependency (st : Store) (hi : st.g.Inv) (q q' : List Nat) (n : Nat)
+    (h : queuePop st q = some (n, q')) : ∀ m ∈ q', ¬ st.g.Reach n m :=
+  fun m hm => queuePop_no_reach hi h m (queuePop_rest_subset h hm)
+
+/-- With duplicate-free live entries the popped node has *strictly* the greatest rank. -/
+theorem C04_pop_rank_strict_max (st : Store) (hi : st.g.Inv) (q q' : List Nat) (n : Nat)
+    (hn : q.Nodup) (hl : ∀ m ∈ q, st.g.containsNode m = true)
+    (h : queuePop st q = some (n, q')) : ∀ m ∈ q', st.g.topoOf m < st.g.topoOf n := by
+  intro m hm
+  have hs := queueSort_strict hi.toWF hn hl
+  rw [queuePop_eq_some h, List.pairwise_append] at hs
+  exact hs.2.2 m hm n (by simp)
+
+/-- Draining the queue: the pop order enumerates the queue, and no node comes before one of its
+transitive dependencies. -/
+theorem C04_drain_order (st : Store) (hi : st.g.Inv) (q : List Nat) (f : Nat)
+    (hf : q.length ≤ f) :
+    (queueDrain st f q).Perm q ∧
+      (queueDrain st f q).Pairwise (fun a b => ¬ st.g.Reach a b) :=
+  ⟨queueDrain_perm st f q hf, queueDrain_no_reach hi f q⟩
+
+/-! ### `Vec::swap_remove` -/
+
+theorem C04_swapRemove_perm {v : List Nat} {i : Nat} (hi : i < v.length) :
+    (swapRemove v i).Perm (v.eraseIdx i) :=
+  swapRemove_perm hi
+
+/-! ### `Queue::pop_least_task_with_dependency_from` -/
+
+/-- `queuePopLeastFrom st q src` removes one occurrence of the queued node of greatest rank among
+those in the cone of `src` (`src` itself or `containsTransitive src ·`). -/
+theorem C04_popLeastFrom_spec (st : Store) (q q' : List Nat) (src n : Nat)
+    (h : queuePopLeastFrom st q src = some (n, q')) :
+    n ∈ q ∧ (n = src ∨ st.containsTransitive src n = true) ∧ q'.Perm (q.erase n) ∧
+      (∀ m ∈ q, (m = src ∨ st.containsTransitive src m = true) →
+        st.g.topoOf m ≤ st.g.topoOf n) ∧
+      (q.Nodup → n ∉ q' ∧ q'.Nodup) := by
+  obtain ⟨_, _, _, _, hcn, _⟩ := queuePopLeastFrom_eq_some h
+  exact ⟨queuePopLeastFrom_mem h, inCone_iff.mp hcn, queuePopLeastFrom_perm_erase h,
+    fun m hm hc => queuePopLeastFrom_max h m hm (inCone_iff.mpr hc), queuePopLeastFrom_nodup h⟩
+
+theorem C04_popLeastFrom_none_iff (st : Store) (q : List Nat) (src : Nat) :
+    queuePopLeastFrom st q src = none ↔
+      ∀ m ∈ q, ¬ (m = src ∨ st.containsTransitive src m = true) := by
+  rw [queuePopLeastFrom_eq_none]
+  constructor
+  · intro h m hm hc
+    have := h m hm
+    rw [inCone_iff.mpr hc] at this
+    cases this
+  · intro h m hm
+    cases hc : inCone st src m
+    · rfl
+    · exact absurd (inCone_iff.mp hc) (h m hm)
+
+/-- Under the graph invariant the node popped for `src` has no queued transitive dependency
+inside the cone of `src` (no assumption on `containsTransitive`). -/
+theorem C04_popLeastFrom_no_queued_dependency_in_cone (st : Store) (hi : st.g.Inv)
+    (q q' : List Nat) (src n : Nat) (h : queuePopLeastFrom st q src = some (n, q')) :
+    ∀ m ∈ q', (m = src ∨ st.containsTransitive src m = true) → ¬ st.g.Reach n m :=
+  fun m hm hc => queuePopLeastFrom_no_reach_in_cone hi h m
+    (queuePopLeastFrom_rest_subset h hm) (inCone_iff.mpr hc)
+
+/-- If `containsTransitive` decides reachability (`hct`, proved separately), everything the
+popped node reaches lies in the cone of `src`, hence **the node popped for `src` has no queued
+transitive dependency at all**. -/
+theorem C04_popLeastFrom_no_queued_dependency (st : Store) (hi : st.g.Inv)
+    (hct : ∀ a b, st.containsTransitive a b = true ↔ st.g.Reach a b)
+    (q q' : List Nat) (src n : Nat) (h : queuePopLeastFrom st q src = some (n, q')) :
+    ∀ m ∈ q', ¬ st.g.Reach n m :=
+  fun m hm => queuePopLeastFrom_no_reach hi hct h m (queuePopLeastFrom_rest_subset h hm)
+
+/-- … and it is `src` or a transitive dependency of `src`. -/
+theorem C04_popLeastFrom_in_cone (st : Store)
+    (hct : ∀ a b, st.containsTransitive a b = true ↔ st.g.Reach a b)
+    (q q' : List Nat) (src n : Nat) (h : queuePopLeastFrom st q src = some (n, q')) :
+    n = src ∨ st.g.Reach src n := by
+  obtain ⟨_, hc, _⟩ := C04_popLeastFrom_spec st q q' src n h
+  exact hc.imp id (hct src n).mp
+
+/-! ### non-vacuity -/
+
+/-- Task nodes `0 → 1 → 2 ← 3` and an isolated node `4`; inserting `3 → 2` repairs the ranks to
+`0:1, 1:2, 3:3, 2:4, 4:5`. -/
+def c04Store : Store :=
+  { g := Dag.run [.addNode (.task 0 none), .addNode (.task 1 none), .addNode (.task 2 none),
+      .addNode (.task 3 none), .addNode (.task 4 none),
+      .addEdge 0 1 .reserved, .addEdge 1 2 .reserved, .addEdge 3 2 .reserved] }
+
+example : c04Store.g.iterUnsorted = [(1, 0), (2, 1), (4, 2), (3, 3), (5, 4)] := by decide
+
+example : queueAdd (queueAdd (queueAdd [2, 0] 3) 0) 1 = [2, 0, 3, 1] := by decide
+
+/-- `pop` hands out node 2 (on which 1 and 3 depend) first. -/
+example : queuePop c04Store [2, 0, 3, 1] = some (2, [0, 1, 3]) := by decide
+
+/-- The hypotheses of the main theorem are jointly satisfiable (the store is reachable, so its
+graph satisfies the invariant): node 2 reaches none of the nodes left in the queue. -/
+example : ∀ m ∈ [0, 1, 3], ¬ c04Store.g.Reach 2 m :=
+  C04_pop_no_queued_dependency c04Store (C10_inv_reachable _) [2, 0, 3, 1] [0, 1, 3] 2 (by decide)
+
+/-- The whole pop order: dependencies first. -/
+example : queueDrain c04Store 4 [2, 0, 3, 1] = [2, 3, 1, 0] := by decide
+
+/-- For `src = 1` the cone is `{1, 2}`: node 2 is popped, the rest is `swap_remove`d. -/
+example : queuePopLeastFrom c04Store [2, 0, 3, 1, 4] 1 = some (2, [0, 1, 3, 4]) := by decide
+example : queuePopLeastFrom c04Store [0, 3, 1, 4] 1 = some (1, [0, 4, 3]) := by decide
+example : queuePopLeastFrom c04Store [0, 3] 4 = none := by decide
+
+example : swapRemove [10, 11, 12, 13] 1 = [10, 13, 12] := by decide
+
+/-- On the example store `containsTransitive` agrees with reachability on the queried pairs. -/
+example : c04Store.containsTransitive 0 2 = true ∧ c04Store.containsTransitive 2 0 = false ∧
+    c04Store.containsTransitive 1 3 = false := by decide
+
 end PieModel
